@@ -73,7 +73,7 @@ func gen(g *hx.Gen) {
 			var rounds int
 			switch r.Intn(6) {
 			case 0:
-				rounds = r.PickInt(0, 2, 8, 32, 64, 66)
+				rounds = r.PickInt(0, 2, 6, 8, 10, 30, 32, 34, 62, 64, 66) // ≡ 0 and ≡ 2 mod 4: whole and half double-cycles
 			case 1:
 				rounds = 2*r.Intn(100) + 1
 				g.Stat("tea.odd")
@@ -84,6 +84,9 @@ func gen(g *hx.Gen) {
 				rounds = 64
 			default:
 				rounds = 2 * r.Intn(130)
+				if rounds%4 == 2 {
+					g.Stat("tea.rounds-2mod4")
+				}
 			}
 			g.Stat("cipher.tea")
 			g.Emit("blk cipher=tea key=%s rounds=%d src=%s", hx.Hex(keyBytes(r, kl)), rounds, hx.Hex(blocks(r, 8)))
